@@ -15,6 +15,7 @@
   The request body is a list of items as `RecvMsg` meets them (byte level: Framing model).
 -/
 import Model.InprocStream
+import Model.Gen.HttpStreams
 
 namespace HttpServerStream
 open InprocStream (HErr Reason Res codeOf)
@@ -63,7 +64,7 @@ def init (clientStreams : Bool) (req : List ReqItem) : St := { clientStreams, re
     DeadlineExceeded, any other error is Unknown -/
 def trailerCode : Option HErr → Nat
   | none => 0
-  | some (.status c) => if c == 0 then 13 else c
+  | some (.status c) => if c == 0 then (if Gen.streamOkRewrite then 13 else 0) else c   -- (the rewrite's presence is regenerated)
   | some .plain => 2
   | some (.ctx r) => codeOf r
 
